@@ -558,5 +558,9 @@ class MailboxSet(MailboxSetInterface[MailboxData]):
     async def rename_mailbox(self, before: str, after: str) -> None:
         if before == 'INBOX':
             raise NotSupportedError()  # TODO
-        else:
+        try:
             self._layout.rename_folder(before, after, self.delimiter)
+        except FileNotFoundError as exc:
+            raise KeyError(before) from exc
+        except FileExistsError as exc:
+            raise ValueError(after) from exc
